@@ -3,13 +3,17 @@
 (* C04: "split-plane box set": a history of Add / Remove (and the RectSet   *)
 (* variants) over integer boxes denotes the plain set algebra of the boxes. *)
 (* One record per history:                                                  *)
-(*  [id, site, ops: <<[op, lo, hi]>>, plo, phi (probe lattice, half units), *)
-(*   inside: <<indices of contained probes>>, empty, smin, smax (RectSet    *)
+(*  [id, site, ops: <<[op, set, src, lo, hi]>>, plo, phi (probe lattice,    *)
+(*   half units), inside / inside2: <<indices of contained probes of set 1  *)
+(*   / 2>>, empty, smin, smax (RectSet                                      *)
 (*   Min / Max), bmin, bmax (bounds of RectSet.Solid()), bexact, panic]     *)
 (* A probe is decided only if it lies on no face of any box of the history  *)
 (* (the set is a union of closed cells, so removal leaves faces behind:     *)
 (* boundary points are not prescribed).  Clauses                            *)
 (*   exact  - decided probes: contained iff the folded set algebra says so  *)
+(*   exact2 - the same for the second set of the history (operated on       *)
+(*            directly and used as the argument of set operations on the    *)
+(*            first one, which must not change it)                          *)
 (*   bounds - non-empty set: Min / Max of the set and of its solid are the  *)
 (*            bounding box of the cells that remain (no stale planes)       *)
 (***************************************************************************)
@@ -27,11 +31,21 @@ InBox(o, p) == \A a \in 1..3 : 2 * o.lo[a] <= p[a] /\ p[a] <= 2 * o.hi[a]
 OnFace(o, p) == InBox(o, p) /\ \E a \in 1..3 : p[a] = 2 * o.lo[a] \/ p[a] = 2 * o.hi[a]
 Decided(p) == \A k \in 1..Len(R.ops) : ~OnFace(R.ops[k], p)
 IsAdd(o) == o.op \in {"add", "addset"}
-RECURSIVE Fold(_, _)
-Fold(k, p) == IF k = 0 THEN FALSE
-              ELSE IF InBox(R.ops[k], p) THEN IsAdd(R.ops[k]) ELSE Fold(k - 1, p)
-Den(p) == Fold(Len(R.ops), p)
+\* membership of p in set s after the first k operations; a set operation whose argument is the other set (src # 0)
+\* uses that set as it is at that moment, and must leave it as it was
+RECURSIVE Fold(_, _, _)
+Fold(k, s, p) ==
+    IF k = 0 THEN FALSE
+    ELSE LET o == R.ops[k] IN
+         IF o.set # s THEN Fold(k - 1, s, p)
+         ELSE IF o.op \in {"addset", "removeset"} /\ o.src # 0
+              THEN IF o.op = "addset" THEN Fold(k - 1, s, p) \/ Fold(k - 1, o.src, p)
+                   ELSE Fold(k - 1, s, p) /\ ~Fold(k - 1, o.src, p)
+              ELSE IF InBox(o, p) THEN IsAdd(o) ELSE Fold(k - 1, s, p)
+Den(p) == Fold(Len(R.ops), 1, p)
+Den2(p) == Fold(Len(R.ops), 2, p)
 Obs == {R.inside[i] : i \in 1..Len(R.inside)}
+Obs2 == {R.inside2[i] : i \in 1..Len(R.inside2)}
 DenSet == {i \in 1..NP : Decided(Probe(i)) /\ Den(Probe(i))}
 \* bounding box of what remains: every remaining cell has a decided (half-integer) interior point
 Coord(a) == {Probe(i)[a] : i \in DenSet}
@@ -41,11 +55,12 @@ Hi(a) == (CHOOSE v \in Coord(a) : \A w \in Coord(a) : v >= w) + 1
 Holds(c) ==
     CASE c = "panic"  -> R.panic = ""
       [] c = "exact"  -> R.panic # "" \/ \A i \in 1..NP : Decided(Probe(i)) => ((i \in Obs) = Den(Probe(i)))
+      [] c = "exact2" -> R.panic # "" \/ \A i \in 1..NP : Decided(Probe(i)) => ((i \in Obs2) = Den2(Probe(i)))
       [] c = "bounds" -> R.panic # "" \/ DenSet = {} \/
                            (R.bexact /\ \A a \in 1..3 : /\ R.smin[a] = Lo(a) /\ R.smax[a] = Hi(a)
                                                         /\ R.bmin[a] = Lo(a) /\ R.bmax[a] = Hi(a))
       [] OTHER -> TRUE
-Clauses == {"panic", "exact", "bounds"}
+Clauses == {"panic", "exact", "exact2", "bounds"}
 Fails == {c \in Clauses : ~Holds(c)}
 
 Init == rec \in 1..Len(Recs) /\ done = FALSE
